@@ -151,7 +151,7 @@ impl Div for &UnitSet {
         'rhs: for (ru, rp) in &rhs.units {
             for (lu, lp) in &mut result.units {
                 if lu == ru {
-                    *lp = lp.saturating_sub(*rp);
+                    *lp = lp.saturating_sub(*rp).max(-i8::MAX);
                     continue 'rhs;
                 }
             }
@@ -168,7 +168,7 @@ impl Mul for &UnitSet {
         'rhs: for (ru, rp) in &rhs.units {
             for (lu, lp) in &mut result.units {
                 if lu == ru {
-                    *lp = lp.saturating_add(*rp);
+                    *lp = lp.saturating_add(*rp).max(-i8::MAX);
                     continue 'rhs;
                 }
             }
